@@ -458,6 +458,14 @@ func verif_contract_Session_Parse(h *Session, p []byte) (Frame, error) {
 	}
 	if err == nil {
 		vEnsures(len(p) >= 14)
+		// spec_frame_wf(frame, p), conjunct by conjunct to keep each query small
+		vEnsures(len(frame.ether) == len(p) && vSameRegion(frame.ether, p) && vOffset(frame.ether, p) == 0)
+		vEnsures(spec_off_ok(frame.offsetIP4, len(p)) && spec_off_ok(frame.offsetIP6, len(p)))
+		vEnsures(spec_off_ok(frame.offsetUDP, len(p)) && spec_off_ok(frame.offsetTCP, len(p)) && spec_off_ok(frame.offsetPayload, len(p)))
+		vEnsures(frame.offsetIP4 == 0 || spec_valid_ip4(IP4(p[frame.offsetIP4:])))
+		vEnsures(frame.offsetIP6 == 0 || len(p)-frame.offsetIP6 >= 40)
+		vEnsures(frame.offsetUDP == 0 || len(p)-frame.offsetUDP >= 8)
+		vEnsures(frame.offsetTCP == 0 || spec_valid_tcp(TCP(p[frame.offsetTCP:])))
 		vEnsures(spec_frame_wf(frame, p))
 		vEnsures(len(frame.SrcAddr.MAC) == 6 && vSameRegion(frame.SrcAddr.MAC, p) && vOffset(frame.SrcAddr.MAC, p) == 6)
 		vEnsures(len(frame.DstAddr.MAC) == 6 && vSameRegion(frame.DstAddr.MAC, p) && vOffset(frame.DstAddr.MAC, p) == 0)
